@@ -26,12 +26,12 @@ import (
 )
 
 const rule = "cases = rapid-drawn scenarios (registry mode long/short idle limit/short lifetime limit, 2-5 logical clients each holding at most one transaction, " +
-	"6-32 steps over begin{direct,Registry.Begin,service RPC; ro/rw; optional 20-100 ms deadline or caller cancels before/at/50us after the lock grant}/write_tx(=begin rw+put+commit)/put/del/get/scan/commit{optionally on an injected ApplyBatch fault}/rollback/abandon/rejected TxGet/" +
+	"6-32 steps over begin{direct,Registry.Begin,service RPC; ro/rw; optional 20-100 ms deadline or caller cancels before/at/50us after the lock grant}/write_tx(=begin rw+put+commit)/put/del/get/scan/commit{optionally on an injected ApplyBatch fault}/rollback{every service call with a live, cancelled or expired request context}/abandon/rejected TxGet/" +
 	"CleanupStaleTransactions/CleanupConnection/GracefulShutdown, drawn way of ending what is still open), each executed in a child process on its own engine; " +
 	"oracle = lock-aware model (who holds the RW lock, which begins are queued) + map model of the database + closed-error rule + 'a fresh read-write " +
 	"transaction begins within 5 s and put+commit works' after every scenario (scenarios with a timed-out begin are run 4 times); " +
 	"non-trivial = the executed scenario contains a begin that timed out while queued for the lock, a begin whose caller gives up at the moment the lock is granted, " +
-	"a commit that hit an injected storage fault, an abandoned transaction cleaned up by the server, " +
+	"a commit that hit an injected storage fault, a service call on an open transaction whose request context is already cancelled or expired, an abandoned transaction cleaned up by the server, " +
 	"or a repeated commit/rollback while another client holds or waits for the lock; distinct by FNV-64 of the case JSON"
 
 // KV is one initial database entry.
@@ -53,6 +53,8 @@ type Step struct {
 	Peer       bool   `json:"peer,omitempty"`        // begin: context carries a "peer" connection id; cleanup_conn: clean conn-<C> (else "unknown")
 	DeadlineMs int    `json:"deadline_ms,omitempty"` // begin: context deadline, used when the call certainly has to wait longer
 	GiveUp     string `json:"give_up,omitempty"`     // begin (reg/svc): the caller's context is cancelled before_grant | at_grant | soon_after the lock is granted inside Registry.Begin
+	Ctx        string `json:"ctx,omitempty"`         // request context of a service call: "" live | cancelled | expired (dead before the handler runs); begin: registry path too
+	DeadAt     string `json:"dead_at,omitempty"`     // write_tx on the service path with a dead Ctx: which call gets it: op (the put) | commit | rollback (instead of the commit)
 	Fault      bool   `json:"fault,omitempty"`       // commit/write_tx: the storage refuses the batch of this commit (wrapped backend only)
 	K          int    `json:"k,omitempty"`
 	V          string `json:"v,omitempty"`
@@ -71,7 +73,7 @@ type Case struct {
 	Clients int    `json:"clients"`
 	Init    []KV   `json:"init,omitempty"`
 	Steps   []Step `json:"steps"`
-	End     string `json:"end"` // rollback | conn | stale | shutdown
+	End     string `json:"end"` // rollback | conn | stale | shutdown | commit_dead_ctx | rollback_dead_ctx (service transactions: finish call with a cancelled request context first)
 }
 
 // Result is what the child reports.
@@ -154,7 +156,7 @@ func childMain(specPath, resPath string) {
 		}
 		// the outcome of a begin that timed out in the queue is a coin flip per
 		// late begin on a tree with the leak: run such scenarios 4 times
-		if rep == 0 && (feats["late_begin"] || feats["cancel_at_grant"]) {
+		if rep == 0 && (feats["late_begin"] || feats["cancel_at_grant"] || feats["ctx_dead_at_begin"]) {
 			reps = 4
 		}
 	}
@@ -303,45 +305,68 @@ var opTable = func() []string {
 // keys: key 0 is drawn most often so that different transactions meet on it
 var keyTable = []int{0, 0, 0, 1, 2}
 
+// request context of a service call (ignored on the other paths): dead in 5 of 10
+var ctxTable = []string{"", "", "", "", "", "cancelled", "cancelled", "cancelled", "expired", "expired"}
+var ctxBeginTable = []string{"", "", "", "", "", "", "", "", "cancelled", "expired"}
+
 func genStep(t *rapid.T) Step {
 	s := Step{Op: rapid.SampledFrom(opTable).Draw(t, "op"), C: rapid.IntRange(0, 11).Draw(t, "c")}
 	switch s.Op {
 	case "begin":
-		s.Path = rapid.SampledFrom([]string{"direct", "reg", "reg", "svc", "svc"}).Draw(t, "path")
+		s.Path = rapid.SampledFrom([]string{"direct", "direct", "reg", "reg", "reg", "svc", "svc", "svc", "svc", "svc"}).Draw(t, "path")
 		s.RO = rapid.IntRange(0, 9).Draw(t, "ro") < 4
 		if s.Path != "direct" {
 			s.Peer = rapid.IntRange(0, 9).Draw(t, "peer") < 8
-			s.DeadlineMs = rapid.SampledFrom([]int{0, 0, 0, 20, 20, 20, 30, 30, 50, 100}).Draw(t, "deadline_ms")
+			s.DeadlineMs = rapid.SampledFrom([]int{0, 0, 0, 0, 0, 20, 20, 30, 50, 100}).Draw(t, "deadline_ms")
+			if s.Path == "svc" && rapid.IntRange(0, 9).Draw(t, "plain") < 4 {
+				// enough plain service transactions for the calls with dead request contexts to land on
+				s.DeadlineMs = 0
+				return s
+			}
 			if s.DeadlineMs > 0 && !ev.Flag("late_begin_timeout") {
 				ev.R().Exclude("late_begin_timeout")
 				s.DeadlineMs = 0
 			}
-			if g := rapid.SampledFrom([]string{"", "", "", "", "", "", "at_grant", "at_grant", "before_grant", "soon_after"}).Draw(t, "give_up"); s.DeadlineMs == 0 {
+			if g := rapid.SampledFrom([]string{"", "", "", "", "", "", "", "at_grant", "before_grant", "soon_after"}).Draw(t, "give_up"); s.DeadlineMs == 0 {
 				s.GiveUp = g
+			}
+			if c := rapid.SampledFrom(ctxBeginTable).Draw(t, "ctx"); s.DeadlineMs == 0 && s.GiveUp == "" {
+				s.Ctx = c
 			}
 		}
 	case "write_tx":
-		s.Path = rapid.SampledFrom([]string{"direct", "reg", "svc"}).Draw(t, "path")
+		s.Path = rapid.SampledFrom([]string{"direct", "reg", "svc", "svc"}).Draw(t, "path")
 		s.Peer = s.Path != "direct" && rapid.IntRange(0, 9).Draw(t, "peer") < 8
 		s.K = rapid.SampledFrom(keyTable).Draw(t, "k")
 		s.V = fmt.Sprintf("w%d", rapid.IntRange(0, 999).Draw(t, "v"))
 		s.Keep = rapid.IntRange(0, 9).Draw(t, "keep") < 3
 		s.Fault = rapid.IntRange(0, 9).Draw(t, "fault") < 5
+		if s.Path == "svc" {
+			s.Ctx = rapid.SampledFrom(ctxTable).Draw(t, "ctx")
+			s.DeadAt = rapid.SampledFrom([]string{"commit", "rollback", "op"}).Draw(t, "dead_at")
+			if s.Ctx == "" {
+				s.DeadAt = ""
+			}
+		}
 	case "put":
 		s.K = rapid.SampledFrom(keyTable).Draw(t, "k")
 		s.V = fmt.Sprintf("v%d", rapid.IntRange(0, 999).Draw(t, "v"))
 		s.Again = rapid.IntRange(0, 9).Draw(t, "again") < 3
+		s.Ctx = rapid.SampledFrom(ctxTable).Draw(t, "ctx")
 	case "del", "get":
 		s.K = rapid.SampledFrom(keyTable).Draw(t, "k")
 		s.Again = rapid.IntRange(0, 9).Draw(t, "again") < 3
+		s.Ctx = rapid.SampledFrom(ctxTable).Draw(t, "ctx")
 	case "scan":
 		s.Again = rapid.IntRange(0, 9).Draw(t, "again") < 3
+		s.Ctx = rapid.SampledFrom(ctxTable).Draw(t, "ctx")
 	case "commit", "rollback":
 		s.Keep = rapid.IntRange(0, 9).Draw(t, "keep") < 3
 		s.Again = rapid.IntRange(0, 9).Draw(t, "again") < 4
 		if s.Op == "commit" {
 			s.Fault = rapid.IntRange(0, 9).Draw(t, "fault") < 5
 		}
+		s.Ctx = rapid.SampledFrom(ctxTable).Draw(t, "ctx")
 	case "cleanup_conn":
 		s.Peer = rapid.IntRange(0, 9).Draw(t, "peer") < 8
 		s.Svc = rapid.Bool().Draw(t, "via_service")
@@ -359,7 +384,7 @@ func genCase(t *rapid.T) Case {
 	c := Case{
 		Mode:    rapid.SampledFrom([]string{"long", "long", "short_idle", "short_ttl"}).Draw(t, "mode"),
 		Clients: rapid.IntRange(2, 5).Draw(t, "clients"),
-		End:     rapid.SampledFrom([]string{"rollback", "conn", "stale", "shutdown"}).Draw(t, "end"),
+		End:     rapid.SampledFrom([]string{"rollback", "conn", "stale", "shutdown", "commit_dead_ctx", "rollback_dead_ctx"}).Draw(t, "end"),
 	}
 	if rapid.IntRange(0, 2).Draw(t, "wrapped_backend") > 0 {
 		c.Backend = "wrapped"
@@ -383,7 +408,7 @@ func classify(res *Result) (nontrivial bool, classes []string) {
 		f[x] = true
 		classes = append(classes, x)
 	}
-	nontrivial = f["late_begin"] || f["cancel_at_grant"] || f["commit_fault_injected"] || f["abandoned_cleaned"] || f["double_finish_contended"]
+	nontrivial = f["late_begin"] || f["cancel_at_grant"] || f["commit_fault_injected"] || f["ctx_dead_at_commit"] || f["ctx_dead_at_rollback"] || f["ctx_dead_at_op"] || f["ctx_dead_at_begin"] || f["abandoned_cleaned"] || f["double_finish_contended"]
 	if nontrivial {
 		classes = append(classes, "nontrivial")
 	}
@@ -453,7 +478,7 @@ func TestReplay(t *testing.T) {
 			return
 		}
 		for _, x := range res.Features {
-			if (x == "late_begin" || x == "cancel_at_grant") && i == 0 {
+			if (x == "late_begin" || x == "cancel_at_grant" || x == "ctx_dead_at_begin") && i == 0 {
 				tries = 3
 			}
 		}
